@@ -87,6 +87,21 @@ CLAIMED["C12"] = dict(
         "connections and counter races are not modelled. Trusted: Coq kernel, harness, python oracle. No axioms.",
    technique="Rocq proof of token conservation (all streams) and per-command buffer balance under an explicit contract; refutation witness; differential accounting correspondence",
    design="6/C12")
+CLAIMED["C10"] = dict(
+   text="Theorems (coq/props/C10.v): (1) whatever the compressor reports, every reply of every history is identical (C10_decision_invisible, a "
+        "corollary of the C01 refinement: two traces differing only in compressor answers give the same projected replies); (2) the server flag "
+        "bit never escapes (client_flag (stored_flag f c) = f); (3) the decision rule characterised (never for tombstones / client-compressed / "
+        "one-block records; only when 10*c <= 7*t and the content type is allowed); (4) for EVERY byte string the safe C entry point as built in this "
+        "tree -- QuickLZ level-3 decoder modelled with explicit out-of-bounds outcomes, QLZ_MEMORY_SAFE and the stored-block check translated from the "
+        "sources -- returns a buffer or an error and never touches memory outside its buffers (C10_safe_entry_total, invariant proof over the "
+        "decoder loop); (5) the code before the two repairs is refuted with witnesses (F9, F9b, both fixed by fix: commits). Correspondence: "
+        "600 byte strings (C- and Go-compressed, mutated, stored headers, random) through CDecompressSafe vs the model byte for byte, Go "
+        "DecompressSafe observed, plus store histories with values around all decision thresholds (directory sizes = decision).",
+   note="PARTIAL: 'the two implementations decompress each other's output' is observed (oracle), not proved -- the compressors are not modelled; one "
+        "open finding (F19: Go-compressed inputs of 1..3 bytes are rejected by the memory-safe C decoder). The float32 ratio test is modelled by its "
+        "exact integer equivalent on the reachable domain (argued in DESIGN). Trusted: Coq kernel, translator, harness, C compiler. No axioms.",
+   technique="Rocq proof: decision invisibility via refinement, memory-safety invariant of a modelled decoder for all inputs, refutation witnesses; differential correspondence",
+   design="6/C10")
 NOT_YET = {}
 props = [json.loads(l) for l in open(os.path.join(V, "properties.jsonl"))]
 checks = []
